@@ -920,3 +920,37 @@ def route_lists_not_aliased(ctx: Ctx, rule: str):
                          f"entries accumulate with every call and requests are routed to peers "
                          f"that were never configured for the application/realm", rule=rule)
                 break
+
+
+def every_state_has_a_deadline(ctx: Ctx, rule: str):
+    """Every state in which a registered connection can stay has a timer in _check_timers that
+    eventually closes it (or, for the ready state, probes it): a connection left in a state
+    without any deadline - DISCONNECTING after DPR/DPA, CLOSING - whose peer silently vanishes
+    keeps its socket, its two worker threads and its table entries for ever."""
+    from .timers import TimerTable
+    from ..atoms import AssumeTracker
+    model = ctx.model
+    peer_mod = model.module("node.peer")
+    # PEER_CLOSING is left through the I/O loop's clean-close sites as soon as the pending output
+    # has drained (C18-R3), PEER_CLOSED through its wake-up: neither needs a timer
+    names = ["PEER_CONNECTING", "PEER_CONNECTED", "PEER_READY", "PEER_READY_WAITING_DWA",
+             "PEER_DISCONNECTING"]
+    ctx.rule(rule, "each state a connection can linger in is covered by a timer action of "
+                   "_check_timers (close or watchdog)", floor=4)
+    T = TimerTable(ctx)
+    for nm in names:
+        cons = f"_check_timers:deadline({nm})"
+        val = model.fold_name(peer_mod, nm)
+        assume = AssumeTracker(T.at, {f"{T.conn}.state": val, "self._stopping": False})
+        reach = T.g.reach([T.g.entry], tracker=assume)
+        acts = [k for n, k, c in T.actions if n in reach]
+        ctx.inst(cons, rule=rule, sample={"state": nm, "actions": sorted(set(acts))})
+        if nm == "PEER_CONNECTING":
+            continue      # ends through the socket: connect succeeds or fails, both handled by the I/O loop
+        if not acts:
+            ctx.fail(cons, T.f.loc(), f"_check_timers does nothing for a connection in {nm}: if the peer "
+                     f"vanishes without closing (no FIN/RST) after "
+                     f"{'the DPR/DPA exchange' if nm == 'PEER_DISCONNECTING' else 'the connection entered this state'}, "
+                     f"the connection stays registered for ever with its socket and both worker threads; "
+                     f"Peer.connection keeps pointing at it, so the peer is never dialled again and "
+                     f"answers for the reconnected peer are routed nowhere", rule=rule)
